@@ -157,7 +157,12 @@ class Experiment:
             Result of the experiment.
         """
 
-        self.config(processes,maxchunksperchild,maxtasksperchunk)
+        #an argument that is not given leaves what config(...) set as it is
+        self.config(
+            processes         if processes         is not None else self._processes,
+            maxchunksperchild if maxchunksperchild is not None else self._maxchunksperchild,
+            maxtasksperchunk  if maxtasksperchunk  is not None else self._maxtasksperchunk
+        )
         mp,mc,mt = self.processes,self.maxchunksperchild,self.maxtasksperchunk
 
         CobaContext.store['experiment_seed'] = seed
